@@ -32,22 +32,39 @@ def main():
         print(f"NOT KEPT {name}: not confirmed ({conf})")
         return 1
     results = {}
+    logs = [x for x in logs if not x.startswith("--prefix=")]
     for lg in logs:
         for line in open(lg, errors="replace"):
-            m = re.match(rf"SEED (?:{pid}/)?{k}/patch\.diff (C\d+) exit=(\d+) violations=(\d+)", line)
-            if m and (f"SEED {pid}/{k}/" in line or os.path.basename(lg).startswith(pid)):
+            m = re.match(rf"SEED {pid}/{k}/patch\.diff (C\d+) exit=(\d+) violations=(\d+)", line)
+            if m:
                 results[m.group(1)] = {"exit": int(m.group(2)), "violation_lines": int(m.group(3))}
+    prefix = ""
+    if len(sys.argv) > 3 and sys.argv[-1].startswith("--prefix="):
+        prefix = sys.argv[-1].split("=", 1)[1]
+        logs = logs[:-1]
+        name = f"{pid}-{prefix}{k}"
     out = os.path.join(ROOT, "seeded", name)
     os.makedirs(out, exist_ok=True)
     for f in os.listdir(d):
-        if f == "patch.diff" or f == "notes.md" or (f.endswith(".rs")) or f in ("run_demo.sh", "harness_lib.rs"):
+        if f == "patch.diff" or f == "notes.md" or (f.endswith(".rs")) or f in ("run_demo.sh", "harness_lib.rs", "placement.json"):
             shutil.copy2(os.path.join(d, f), os.path.join(out, f))
+        elif os.path.isdir(os.path.join(d, f)) and os.path.exists(os.path.join(d, f, "Cargo.toml")):
+            shutil.copytree(os.path.join(d, f), os.path.join(out, f), dirs_exist_ok=True, ignore=shutil.ignore_patterns("target", "Cargo.lock"))
+    # the kept patch must apply to /repo's HEAD: use the rebased diff when later commits moved the context
+    import subprocess
+    chk = subprocess.run(["git", "-C", "/repo", "apply", "--check", os.path.join(out, "patch.diff")], capture_output=True)
+    if chk.returncode != 0 and os.path.exists(os.path.join(d, "patch.rebased.diff")):
+        shutil.copy2(os.path.join(out, "patch.diff"), os.path.join(out, "patch.as_written.diff"))
+        shutil.copy2(os.path.join(d, "patch.rebased.diff"), os.path.join(out, "patch.diff"))
+        chk = subprocess.run(["git", "-C", "/repo", "apply", "--check", os.path.join(out, "patch.diff")], capture_output=True)
+    applies = chk.returncode == 0
     notes = open(os.path.join(d, "notes.md")).read() if os.path.exists(os.path.join(d, "notes.md")) else ""
     files = re.findall(r"^\+\+\+ b/(\S+)", open(os.path.join(d, "patch.diff")).read(), re.M)
     meta = {
         "id": name,
         "breaks_property": pid,
         "files_changed": files,
+        "patch_applies_to_repo_head": applies,
         "needs_to_manifest": first_paragraphs(notes),
         "confirmed_by": {
             "how": "driver/confirm_seed.py in a scratch worktree of /repo: patch applied to HEAD; `cargo test --workspace --offline --no-fail-fast`; demonstration run with and without the change",
